@@ -27,7 +27,7 @@ PROPERTY = "C34"
 LEVEL = "exploration"
 TECHNIQUE = "property-based testing (Hypothesis) of generated registration/telegram histories on a real XKNX in virtual time vs independent reference matcher"
 RULE = (
-    "case = (notation 1-3 levels, optional Switch on one address, ops: reg{filters, address list, outgoing flag, raising, self-unregistering} | unreg | "
+    "case = (notation 1-3 levels, optional Switch on one address, 0-2 devices whose write/response processing raises, ops: reg{filters, address list, outgoing flag, raising, self-unregistering} | unreg | "
     "telegram{destination group/internal address near the registered ones, incoming via queue / incoming via cEMI / outgoing, write/response/read}); "
     "non-trivial = at least one telegram for which some filtered registration is expected to be called and another registration is expected not to be called; distinct by case"
 )
@@ -43,6 +43,7 @@ ASSUMPTIONS = [
     "registrations change only while the queue is idle (the history joins the queue before register/unregister); with self-unregistering callbacks the queue is joined after every telegram",
     "a callback unregistered or registered by another callback while a telegram is being dispatched is not judged for that telegram; every callback that stays registered is",
     "destination 0 (broadcast, handled by management, not a group telegram) is not generated",
+    "raising devices (a Switch subclass whose process_group_write raises ConversionError / ValueError, on pool addresses) are part of the domain: callbacks must be called whatever a device does with the telegram; what the other devices behind a raising device on the same address do is not judged",
     "raising callbacks raise Exception subclasses (ValueError, RuntimeError, xknx ConversionError), not BaseException",
     "'processed telegram' = telegram taken from xknx.telegrams whose send (if outgoing to a group address) succeeded; the stub interface confirms every frame here, failing sends belong to C33",
 ]
@@ -185,6 +186,15 @@ def execute(case):
                 errors.append("stalled")
                 return False
 
+        for j, rd in enumerate(case.get("rdevs") or ()):
+            # a device whose processing of a write / response raises (e.g. a value it cannot convert)
+            class RaisingSwitch(Switch):
+                _exc = exc_types[rd["exc"]]
+
+                def process_group_write(self, telegram):
+                    raise self._exc("device cannot process this value")
+
+            h.xknx.devices.async_add(RaisingSwitch(h.xknx, f"raising{j}", group_address=_mk_addr(rd["addr"])))
         if case.get("dev") is not None:
             sw = Switch(h.xknx, "sw", group_address=_mk_addr(case["dev"]))
             orig = sw.process
@@ -282,6 +292,11 @@ def judge(ctx, case, calls, dev_calls, errors, escaped) -> bool:
         ctx.fail(f"C34:escaped:{type(e['exception']).__name__}", case, e["repr"] + " " + e["message"])
     if errors:
         return False
+    rdev_addrs = [rd["addr"] for rd in case.get("rdevs") or ()]
+
+    def device_raises(tg) -> bool:
+        return tg["apci"] != "rd" and any(a == tg["dst"] and isinstance(a, str) == isinstance(tg["dst"], str) for a in rdev_addrs)
+
     for i, tg in enumerate(tgs):
         raisers = sorted(k for k in must[i] if specs[k].get("exc"))
         oncers = sorted(k for k in must[i] if specs[k].get("once") and obs.get((k, i), 0) > 0)
@@ -292,7 +307,10 @@ def judge(ctx, case, calls, dev_calls, errors, escaped) -> bool:
                 continue
             dirn = "outgoing" if tg["dir"] == "out" else "incoming"
             if n < exp:
-                if any(r < k for r in oncers):
+                if device_raises(tg):
+                    # callbacks must see the telegram whatever a device on that address does with it
+                    cause = f"after-raising-device:{dirn}"
+                elif any(r < k for r in oncers):
                     cause = "after-self-unregistering-callback"
                 elif any(r < k for r in raisers):
                     cause = "after-raising-callback"
@@ -322,6 +340,8 @@ def judge(ctx, case, calls, dev_calls, errors, escaped) -> bool:
         for i, tg in enumerate(tgs):
             exp = 1 if (tg["dst"] == dev and isinstance(tg["dst"], str) == isinstance(dev, str)) else 0
             n = dobs.get(i, 0)
+            if exp and device_raises(tg):
+                continue  # another device on this address raises: the statement says nothing about the devices behind it
             if n < exp:
                 cause = "after-raising-callback" if any(specs[k].get("exc") for k in must[i]) else "plain"
                 ctx.fail(f"C34:device-not-processed:{cause}", case, f"telegram #{i} {tg}: the Switch on {dev} did not process it")
@@ -446,7 +466,10 @@ def cases(draw):
             ops.append(["unreg", draw(_I(0, 7))])
     k = draw(_I(0, 2))
     dev = None if k == 0 else (_pick(draw, pool) if k == 1 else _pick(draw, names))
-    return {"nl": nl, "dev": dev, "ops": ops}
+    rdevs = []
+    if draw(_I(0, 2)) == 0:
+        rdevs = [{"addr": _pick(draw, pool + names), "exc": _pick(draw, ["ConversionError", "ValueError"])} for _ in range(draw(_I(1, 2)))]
+    return {"nl": nl, "dev": dev, "rdevs": rdevs, "ops": ops}
 
 
 def _labels(case):
@@ -469,6 +492,8 @@ def _labels(case):
         lab.append("tg:internal")
     if case.get("dev") is not None:
         lab.append("device")
+    if case.get("rdevs"):
+        lab.append("raising-device")
     return lab
 
 
@@ -484,6 +509,8 @@ def _hyp_shard(ctx, n: int) -> None:
 
 
 FIXED = [
+    # a device on the destination raises for the value: callbacks still see the telegram, in both directions
+    {"nl": 3, "dev": None, "rdevs": [{"addr": 2563, "exc": "ConversionError"}], "ops": [["reg", {"f": None, "g": None, "out": True, "exc": None}], ["reg", {"f": None, "g": [2563], "out": True, "exc": None}], ["tg", {"dst": 2563, "dir": "in", "apci": "w1"}], ["tg", {"dst": 2563, "dir": "ind", "apci": "r1"}], ["tg", {"dst": 2563, "dir": "out", "apci": "w0"}]]},
     # three match-all callbacks, the middle one raising, plus a Switch (the scenario of the unit test, with a device)
     {"nl": 3, "dev": 2563, "ops": [["reg", {"f": None, "g": None, "out": False, "exc": None}], ["reg", {"f": None, "g": None, "out": False, "exc": "ValueError"}], ["reg", {"f": None, "g": None, "out": True, "exc": None}], ["tg", {"dst": 2563, "dir": "in", "apci": "w1"}], ["tg", {"dst": 2563, "dir": "out", "apci": "w0"}]]},
     # documented filter examples
